@@ -55,6 +55,36 @@ def main():
         ret = call(fi, o)
         return ["ok", buf.tobytes().hex(), fi.tell() - skip, o.tell()] + ([] if ret is None else [ret])
 
+    def items_view(out, typ):
+        """every decoded value as the hex of its bytes: object arrays item by item, fixed-width arrays from the array's
+        own buffer (an 'S<n>' ITEM would lose trailing NULs: that is numpy's scalar conversion, not the decoder)"""
+        if typ == "BOOLEAN":
+            return [int(x) for x in np.asarray(out).view(np.uint8)]
+        a = np.asarray(out)
+        if a.dtype.kind == "O":
+            return [None if x is None else (x.encode("utf-8", "surrogatepass").hex() if isinstance(x, str) else bytes(x).hex())
+                    for x in a]
+        k = a.dtype.itemsize
+        raw = np.ascontiguousarray(a).tobytes()
+        return [raw[i * k:(i + 1) * k].hex() for i in range(len(a))]
+
+    class Spy:
+        """records the calls the Python page readers make to the generic native index decoder"""
+        def __enter__(self):
+            from fastparquet import core
+            self.mod = core.encoding            # (core.py binds the compiled module under the name `encoding`)
+            self.calls = []
+            self.orig = self.mod.read_rle_bit_packed_hybrid
+
+            def spy(io_obj, width, length, o=None, itemsize=4, *a, **k):
+                self.calls.append([int(width), int(itemsize), int(o.len) if hasattr(o, "len") else -1])
+                return self.orig(io_obj, width, length, o, itemsize, *a, **k)
+            self.mod.read_rle_bit_packed_hybrid = spy
+            return self
+
+        def __exit__(self, *exc):
+            self.mod.read_rle_bit_packed_hybrid = self.orig
+
     def run(c):
         fn = c["fn"]
         if fn == "read_bitpacked":
@@ -113,6 +143,25 @@ def main():
         if fn == "read_plain":
             out = encoding.read_plain(bytes.fromhex(c["inp"]), c["type"], c["count"], c.get("width", 0))
             return ["ok", np.asarray(out).tobytes().hex(), len(out)]
+        if fn == "read_plain_t":
+            # encoding.read_plain through its dispatch, every physical type; the buffer the way the page readers hand it over
+            from fastparquet import parquet_thrift as pt
+            raw = bytes.fromhex(c["inp"]) + b"\xa5" * c.get("extra", 0)
+            if c["buf"] == "ndarray":
+                raw = np.frombuffer(raw, dtype=np.uint8).copy()
+            elif c["buf"] == "memoryview":
+                raw = memoryview(np.frombuffer(raw, dtype=np.uint8).copy())
+            out = encoding.read_plain(raw, getattr(pt.Type, c["type"]), c["count"], c["width"], utf=c["utf"], stat=c["stat"])
+            return ["ok", items_view(out, c["type"]), str(getattr(out, "dtype", type(out)))]
+        if fn == "ba_roundtrip":
+            from fastparquet import parquet_thrift as pt
+            items = [bytes.fromhex(x) for x in c["items"]]
+            src = [x.decode("utf-8") for x in items] if c["utf"] else items
+            packed = speedups.pack_byte_array(src) if not c["utf"] else speedups.pack_byte_array([x.encode("utf-8") for x in src])
+            a = np.frombuffer(packed, dtype=np.uint8).copy() if len(packed) else np.empty(1, dtype=np.uint8)[1:]
+            back = speedups.unpack_byte_array(a, len(items), utf=c["utf"])
+            back2 = encoding.read_plain(packed, pt.Type.BYTE_ARRAY, len(items), utf=c["utf"])
+            return ["ok", items_view(back, "BYTE_ARRAY"), items_view(back2, "BYTE_ARRAY")]
         if fn == "encode_dict":
             import pandas as pd
             from fastparquet import writer
@@ -142,48 +191,85 @@ def main():
             vals = [None if v is None else float(v) for v in c["vals"]]
             data = pd.Series(np.array([np.nan if v is None else v for v in vals], dtype="float64"))
             block, out = writer.make_definitions(data, c["no_nulls"], c["version"])
-            return ["ok", bytes(block).hex(), len(out)]
+            # the packed not-null mask as the writer's own boolean packing produces it (parameter of the regenerated model)
+            from fastparquet import parquet_thrift
+            packed = bytes(writer.encode_plain(data.notnull(), parquet_thrift.SchemaElement(type=parquet_thrift.Type.BOOLEAN)))
+            return ["ok", bytes(block).hex(), len(out), packed.hex()]
         if fn == "page_v1_dict":
             # the Python CALLER of the native decoders: core.read_data_page on a foreign (not self-made) v1 data page
             # holding dictionary indices of width w (and, for an OPTIONAL column, width-1 definition levels)
             import io
             from fastparquet import parquet_thrift as pt, schema, core
             root_se = pt.SchemaElement(name="schema", num_children=1)
-            col_se = pt.SchemaElement(name="c", type=pt.Type.INT32,
+            ptype = pt.Type.BOOLEAN if c.get("rle_bool") else pt.Type.INT32
+            penc = pt.Encoding.RLE if c.get("rle_bool") else pt.Encoding.RLE_DICTIONARY
+            col_se = pt.SchemaElement(name="c", type=ptype,
                                       repetition_type=pt.FieldRepetitionType.OPTIONAL if c["optional"] else pt.FieldRepetitionType.REQUIRED)
             helper = schema.SchemaHelper([root_se, col_se])
-            daph = pt.DataPageHeader(num_values=c["n"], encoding=pt.Encoding.RLE_DICTIONARY,
+            daph = pt.DataPageHeader(num_values=c["n"], encoding=penc,
                                      definition_level_encoding=pt.Encoding.RLE, repetition_level_encoding=pt.Encoding.RLE)
             page = bytes.fromhex(c["page"])
             header = pt.PageHeader(type=0, uncompressed_page_size=len(page), compressed_page_size=len(page), data_page_header=daph)
-            md = pt.ColumnMetaData(type=pt.Type.INT32, path_in_schema=["c"], codec=0, num_values=c["n"], encodings=[8],
+            md = pt.ColumnMetaData(type=ptype, path_in_schema=["c"], codec=0, num_values=c["n"], encodings=[8],
                                    total_uncompressed_size=len(page), total_compressed_size=len(page), data_page_offset=0)
-            defi, rep, values = core.read_data_page(io.BytesIO(page), helper, header, md, selfmade=False)
+            with Spy() as spy:
+                defi, rep, values = core.read_data_page(io.BytesIO(page), helper, header, md, selfmade=bool(c.get("selfmade")))
             return ["ok", [int(x) for x in np.asarray(values)], None if defi is None else [int(x) for x in np.asarray(defi)],
-                    str(np.asarray(values).dtype)]
+                    str(np.asarray(values).dtype), spy.calls]
         if fn == "page_v2_dict":
             # the v2 caller: core.read_data_page_v2 on a foreign RLE_DICTIONARY page (indices of width w, optional nulls)
             import io
             from fastparquet import parquet_thrift as pt, schema, core
             root_se = pt.SchemaElement(name="schema", num_children=1)
-            col_se = pt.SchemaElement(name="c", type=pt.Type.INT32,
+            ptype = pt.Type.BOOLEAN if c.get("rle_bool") else pt.Type.INT32
+            col_se = pt.SchemaElement(name="c", type=ptype,
                                       repetition_type=pt.FieldRepetitionType.OPTIONAL if c["optional"] else pt.FieldRepetitionType.REQUIRED)
             helper = schema.SchemaHelper([root_se, col_se])
             page = bytes.fromhex(c["page"])
             dlen = c["dlen"]
             nn = c["n"] - c["nval"]
-            h2 = pt.DataPageHeaderV2(num_values=c["n"], num_nulls=nn, num_rows=c["n"], encoding=pt.Encoding.RLE_DICTIONARY,
+            h2 = pt.DataPageHeaderV2(num_values=c["n"], num_nulls=nn, num_rows=c["n"],
+                                     encoding=pt.Encoding.RLE if c.get("rle_bool") else pt.Encoding.RLE_DICTIONARY,
                                      definition_levels_byte_length=dlen, repetition_levels_byte_length=0, is_compressed=False)
             ph = pt.PageHeader(type=3, uncompressed_page_size=len(page), compressed_page_size=len(page), data_page_header_v2=h2)
-            md = pt.ColumnMetaData(type=pt.Type.INT32, path_in_schema=["c"], codec=0, num_values=c["n"], encodings=[8],
+            md = pt.ColumnMetaData(type=ptype, path_in_schema=["c"], codec=0, num_values=c["n"], encodings=[8],
                                    total_uncompressed_size=len(page), total_compressed_size=len(page), data_page_offset=0)
 
             class Ident:            # a dictionary whose entry number k is k: the output shows the decoded indices
                 def __getitem__(self, idx):
                     return np.asarray(idx).astype(np.int64)
-            assign = np.full(c["n"], -7, dtype=np.float64 if c["optional"] else np.int64)
-            core.read_data_page_v2(io.BytesIO(page), helper, col_se, h2, md, Ident(), assign, 0, False, 0, ph)
-            return ["ok", [None if (x != x) else int(x) for x in assign], None, str(assign.dtype)]
+            if c.get("use_cat"):
+                # categorical output: the page's indices ARE the result (codes array; nulls become -1)
+                assign = np.full(c["n"], -7, dtype=c["adt"])
+            else:
+                assign = np.full(c["n"], -7, dtype=np.float64 if c["optional"] else np.int64)
+            with Spy() as spy:
+                core.read_data_page_v2(io.BytesIO(page), helper, col_se, h2, md, Ident(), assign, 0, bool(c.get("use_cat")), 0, ph,
+                                       selfmade=bool(c.get("selfmade")))
+            return ["ok", [None if (x != x) else int(x) for x in assign], None, str(assign.dtype), spy.calls]
+        if fn == "page_delta":
+            # the Python callers of delta_binary_unpack: core.read_data_page / read_data_page_v2 on a DELTA_BINARY_PACKED page
+            import io
+            from fastparquet import parquet_thrift as pt, schema, core
+            typ = pt.Type.INT64 if c["longval"] else pt.Type.INT32
+            root_se = pt.SchemaElement(name="schema", num_children=1)
+            col_se = pt.SchemaElement(name="c", type=typ, repetition_type=pt.FieldRepetitionType.REQUIRED)
+            helper = schema.SchemaHelper([root_se, col_se])
+            page = bytes.fromhex(c["inp"])
+            md = pt.ColumnMetaData(type=typ, path_in_schema=["c"], codec=0, num_values=c["n"], encodings=[5],
+                                   total_uncompressed_size=len(page), total_compressed_size=len(page), data_page_offset=0)
+            if c["version"] == 1:
+                daph = pt.DataPageHeader(num_values=c["n"], encoding=pt.Encoding.DELTA_BINARY_PACKED,
+                                         definition_level_encoding=pt.Encoding.RLE, repetition_level_encoding=pt.Encoding.RLE)
+                header = pt.PageHeader(type=0, uncompressed_page_size=len(page), compressed_page_size=len(page), data_page_header=daph)
+                defi, rep, values = core.read_data_page(io.BytesIO(page), helper, header, md, selfmade=False)
+                return ["ok", [int(x) for x in np.asarray(values)], str(np.asarray(values).dtype)]
+            h2 = pt.DataPageHeaderV2(num_values=c["n"], num_nulls=0, num_rows=c["n"], encoding=pt.Encoding.DELTA_BINARY_PACKED,
+                                     definition_levels_byte_length=0, repetition_levels_byte_length=0, is_compressed=False)
+            ph = pt.PageHeader(type=3, uncompressed_page_size=len(page), compressed_page_size=len(page), data_page_header_v2=h2)
+            assign = np.full(c["n"], -7, dtype=c["adt"])
+            core.read_data_page_v2(io.BytesIO(page), helper, col_se, h2, md, None, assign, 0, False, 0, ph)
+            return ["ok", [int(x) for x in assign], str(assign.dtype)]
         if fn == "numpyio":
             # a small script of NumpyIO operations
             buf = outbuf(c["cap"])
